@@ -234,6 +234,83 @@ Section FsmProofs.
     rewrite H1, H2. cbn [fst]. rewrite H1', H2', Heq. reflexivity.
   Qed.
 
+
+  (* ---- C05: the versions issued over a whole life *)
+  Fixpoint nseq (v : N) (n : nat) : list N := match n with O => [] | S k => v :: nseq (v + 1) k end.
+  Definition issued (os : list outcome) : list N :=
+    concat (map (fun o => match o with Applied v c => nseq v c | _ => [] end) os).
+
+  Lemma nseq_app a : forall v b, nseq v (a + b) = nseq v a ++ nseq (v + N.of_nat a) b.
+  Proof.
+    induction a as [|a IH]; intros v b; cbn [nseq Nat.add app].
+    - rewrite N.add_0_r. reflexivity.
+    - rewrite IH. do 3 f_equal. lia.
+  Qed.
+
+  Lemma issued_app a b : issued (a ++ b) = issued a ++ issued b.
+  Proof. unfold issued. rewrite map_app, concat_app. reflexivity. Qed.
+
+  Lemma issued_old (old : rlog) : issued (map (fun _ => AlreadyApplied) old) = [].
+  Proof. induction old as [|x old IH]; [reflexivity|]. unfold issued in *. cbn. exact IH. Qed.
+
+  Lemma issued_applied_outs es : forall v, issued (applied_outs v es) = nseq v (length (events_of es)).
+  Proof.
+    induction es as [|[i c] es IH]; intros v; [reflexivity|].
+    cbn [applied_outs]. change (issued (Applied v (length c) :: applied_outs (v + N.of_nat (length c)) es))
+      with (nseq v (length c) ++ issued (applied_outs (v + N.of_nat (length c)) es)).
+    rewrite IH. unfold events_of. cbn [map concat snd]. rewrite app_length, nseq_app. reflexivity.
+  Qed.
+
+  Lemma issued_life_spec incs : forall done,
+    issued (concat (snd (life_spec done incs))) =
+      nseq (N.of_nat (length (events_of done))) (length (events_of (concat (map snd incs)))).
+  Proof.
+    induction incs as [|[old fresh] incs IH]; intros done; [reflexivity|].
+    cbn [life_spec map concat snd]. specialize (IH (done ++ fresh)).
+    destruct (life_spec (done ++ fresh) incs) as [d oss]. cbn [snd concat] in *.
+    rewrite !issued_app, issued_old, issued_applied_outs, IH. cbn [app].
+    rewrite (events_of_app fresh), !app_length, nseq_app, events_of_app, app_length. do 2 f_equal. lia.
+  Qed.
+
+  (* over any life (any number of stops, kills, replays of already applied entries), the versions handed out
+     are exactly |done|, |done|+1, ... one per accepted event, in order, none skipped, none twice; the final
+     state holds exactly the accepted events *)
+  Theorem versions_dense incs done rest :
+    wf_log 0 (done ++ concat (map snd incs) ++ rest) ->
+    N.of_nat (length (events_of (done ++ concat (map snd incs)))) < W64 ->
+    olds_ok done incs ->
+    issued (concat (snd (life E (state_of done) (map (fun of => fst of ++ snd of) incs)))) =
+      nseq (N.of_nat (length (events_of done))) (length (events_of (concat (map snd incs)))) /\
+    n_events E (fst (life E (state_of done) (map (fun of => fst of ++ snd of) incs))) =
+      events_of done ++ events_of (concat (map snd incs)).
+  Proof.
+    intros Hwf Hlen Hok. destruct (life_correct incs done rest Hwf Hlen Hok) as [Hl Hd].
+    rewrite Hl. cbn [fst snd]. split; [apply issued_life_spec|]. rewrite Hd. cbn [state_of n_events]. apply events_of_app.
+  Qed.
+
+  (* ---- C08: a clean stop and reopen anywhere is invisible *)
+  Theorem restart_invisible a b done rest :
+    wf_log 0 (done ++ (a ++ b) ++ rest) -> N.of_nat (length (events_of (done ++ a ++ b))) < W64 ->
+    fst (life E (state_of done) [a ++ b]) = fst (life E (state_of done) [a; b]) /\
+    concat (snd (life E (state_of done) [a ++ b])) = concat (snd (life E (state_of done) [a; b])).
+  Proof.
+    intros Hwf Hlen.
+    assert (Hw1 : wf_log 0 (done ++ concat (map snd [([] : rlog, a ++ b)]) ++ rest)) by (cbn; rewrite app_nil_r; exact Hwf).
+    assert (Hw2 : wf_log 0 (done ++ concat (map snd [([] : rlog, a); ([], b)]) ++ rest)) by (cbn; rewrite app_nil_r; exact Hwf).
+    assert (Hl1 : N.of_nat (length (events_of (done ++ concat (map snd [([] : rlog, a ++ b)])))) < W64) by (cbn; rewrite app_nil_r; exact Hlen).
+    assert (Hl2 : N.of_nat (length (events_of (done ++ concat (map snd [([] : rlog, a); ([], b)])))) < W64) by (cbn; rewrite app_nil_r; exact Hlen).
+    assert (Ho1 : olds_ok done [([] : rlog, a ++ b)]) by (cbn; split; [intros x []|exact I]).
+    assert (Ho2 : olds_ok done [([] : rlog, a); ([], b)]) by (cbn; repeat split; intros x []).
+    destruct (life_correct _ done rest Hw1 Hl1 Ho1) as [H1 H1'].
+    destruct (life_correct _ done rest Hw2 Hl2 Ho2) as [H2 H2'].
+    cbn [map fst snd app] in H1, H2. rewrite H1, H2. cbn [fst snd]. split.
+    - rewrite H1', H2'. cbn. rewrite !app_nil_r. reflexivity.
+    - cbn [life_spec snd fst concat map app]. rewrite !app_nil_r.
+      rewrite events_of_app, app_length, Nat2N.inj_add.
+      generalize (N.of_nat (length (events_of done))) as v. clear. induction a as [|[i c] a IH]; intros v; cbn [applied_outs app events_of map concat length]; [rewrite N.add_0_r; reflexivity|].
+      f_equal. change (concat (map snd ((i, c) :: a))) with (c ++ events_of a). rewrite app_length, Nat2N.inj_add, N.add_assoc. apply IH.
+  Qed.
+
   (* ---- state transfer (C09) *)
   (* the write-ahead log the leader holds for the entries es applied on top of done *)
   Fixpoint wal (done es : rlog) : list (batch E) :=
@@ -318,5 +395,18 @@ Section FsmProofs.
       - cbn [state_of n_version events_of map concat length]. destruct Hamb as [Hd|H2]; [contradiction|]. cbn. lia.
       - destruct (version_of_nonempty (x :: d) ltac:(discriminate) (wf_log_prefix 0 _ _ Hwdm)) as [Hvd Hpd]. rewrite Hvd. lia. }
     rewrite Hlt. reflexivity.
+  Qed.
+
+  (* the premise `done <> [] \/ 2 <= |missing events|` of transfer_gap_refused cannot be dropped: a node with
+     an empty log reports "last applied version 0", which is also what a node holding exactly event 0 reports;
+     a stream starting at version 1 is therefore served to it and event 0 is lost.  (Confirmed on the real
+     code: known finding C09:gap-served:new-node-one-event-missing.) *)
+  Theorem transfer_gap_new_node_one_event_refuted (e : E) :
+    exists missing i c rest,
+      wf_log 0 ([] ++ missing ++ (i, c) :: rest) /\ missing <> [] /\
+      fetch E (n_version E (state_of [])) (wal ([] ++ missing) ((i, c) :: rest)) <> None.
+  Proof.
+    exists [(1, [e])], 2, [e], []. split; [cbn; repeat split; try lia; discriminate|]. split; [discriminate|].
+    cbn. discriminate.
   Qed.
 End FsmProofs.
